@@ -30,6 +30,15 @@ META = {
 
 THEOREMS = [
     "C10_tables",
+    "C10_width",
+    "C10_width_string",
+    "C10_title_message_width",
+    "C10_flatten",
+    "C10_indent",
+    "C10_comment_stays_comment",
+    "C10_words",
+    "C10_content_data",
+    "C10_content_refuted",
 ]
 
 V80, V128, V5 = (6, 1, 0), (6, 2, 0), (5, 1, 60)
